@@ -185,6 +185,16 @@ def proto_rule_violations(proto, registered):
     return bad
 
 
+def rand_value(rng, t):
+    k = type_kind(t)
+    if k in ("F", "D"):
+        return gen.rand_value(rng, k)
+    mn, mx = type_range(t)
+    if mx < mn:
+        return ("s%d" if k == "S" else "i%d") % mn
+    return gen.rand_value(rng, "%s/%d/%d" % (k, mn, mx))
+
+
 def value_ok(t, v):
     k = type_kind(t)
     if k == "F":
